@@ -6,14 +6,16 @@ rows = []
 for f in sorted(glob.glob('/tmp/mut/result-*.json')):
     d = json.load(open(f))
     pid, w = d['property'], d['change']
+    sd = d.get('seed_dir', '/tmp/seed')
+    fw = w[-1]
     if not d.get('confirmed'):
         rows.append((pid, w, 'NOT CONFIRMED', '', ''))
         continue
     dst = '/verif/seeded/%s-%s' % (pid, w)
     os.makedirs(dst, exist_ok=True)
-    shutil.copy('/tmp/seed/%s/%s.diff' % (pid, w), dst + '/patch.diff')
-    shutil.copy('/tmp/seed/%s/%s_demo.py' % (pid, w), dst + '/demo.py')
-    note = open('/tmp/seed/%s/%s.md' % (pid, w)).read()
+    shutil.copy('%s/%s/%s.diff' % (sd, pid, fw), dst + '/patch.diff')
+    shutil.copy('%s/%s/%s_demo.py' % (sd, pid, fw), dst + '/demo.py')
+    note = open('%s/%s/%s.md' % (sd, pid, fw)).read()
     caught = {c: v for c, v in d['checks'].items() if v['exit'] == 1}
     meta = {
         'property': pid, 'change': w,
